@@ -245,7 +245,88 @@ def check_case(case):
     r.outcome("ok")
     if case["index"] == 0:
         negzero(r)
+        trajectory_independence(r)
+        constructed_route(r)
     return r
+
+
+def trajectory_independence(r):
+    """the states a parsed trajectory hands out (post-state of step i, pre-state of step i+1: equal states) are
+    independent objects: changing one in place leaves the other as it was"""
+    from pddl_plus_parser.exporters import TrajectoryExporter
+    from pddl_plus_parser.lisp_parsers import TrajectoryParser
+    from ..bridge import write_tmp
+    s = RefState([("p", "a")], {("f",): Fraction(1), ("h", "a", "a"): Fraction(0)})
+    prob = parse_problem(ptext(s), D())
+    tr = guard(lambda: TrajectoryExporter(D()).parse_plan(prob, action_sequence=["(add-r )", "(set-f )", "(add-q a b)"]))
+    if isinstance(tr, Raised):
+        return
+    path = write_tmp("".join(TrajectoryExporter.export(tr)), ".trajectory")
+    for mode, pm in (("with-problem", prob), ("objects-deduced", None)):
+        for i in range(2):
+            for direction in ("post-state", "pre-state"):
+                obs = guard(lambda: TrajectoryParser(D(), pm).parse_trajectory(path))
+                if isinstance(obs, Raised):
+                    return
+                a, b = obs.components[i].next_state, obs.components[i + 1].previous_state
+                victim, witness = (a, b) if direction == "post-state" else (b, a)
+                before = guard(observe_state, witness)
+
+                def mutate():
+                    for fl in victim.state_fluents.values():
+                        fl.set_value(fl.value + 41.0)
+                    for key in list(victim.state_predicates):
+                        victim.state_predicates[key].clear()
+                guard(mutate)
+                after = guard(observe_state, witness)
+                r.count("transitions")
+                if isinstance(before, Raised) or isinstance(after, Raised) or not same_state(before, after):
+                    r.fail("copy-independence", f"[{mode}] parsed trajectory: after changing the {direction} at the boundary "
+                           f"of steps {i}/{i + 1} in place, the equal state on the other side of the boundary reads "
+                           f"{show(after)} instead of {show(before)}", show(before), show(after),
+                           tags=["trajectory-boundary", direction, mode])
+                    return
+
+
+def constructed_route(r):
+    """states assembled through the public constructors (PDDLFunction / GroundedPredicate / State): a fluent whose
+    arguments repeat an object, then - in the same process - fluents and facts of other states; each serializes as
+    what it was built from"""
+    from pddl_plus_parser.models import PDDLFunction, GroundedPredicate, State
+    t1 = D().types["t1"]
+
+    def build(fluents, atoms):
+        fl = {}
+        for name, args, val in fluents:
+            sig = {x: t1 for x in args}
+            f = PDDLFunction(name=name, signature=sig, arguments=list(args)) if len(set(args)) < len(args) \
+                else PDDLFunction(name=name, signature=sig)
+            f.set_value(val)
+            fl[f.untyped_representation] = f
+        preds = {}
+        for a in atoms:
+            lifted = D().predicates[a[0]]
+            g = GroundedPredicate(a[0], lifted.signature, dict(zip(lifted.signature, a[1:])))
+            preds.setdefault(lifted.untyped_representation, set()).add(g)
+        return State(preds, fl, is_init=False)
+    specs = [([("h", ("a", "a"), 2.0), ("f", (), 1.0)], [("p", "a")]),
+             ([("g", ("b",), 3.0), ("f", (), 0.5)], [("q", "a", "b"), ("r",)]),
+             ([("h", ("a", "b"), 1.5), ("g", ("a",), -2.0)], [("q", "a", "a")]),
+             ([("h", ("b", "b"), 4.0)], []), ([("g", ("a",), 1.0), ("h", ("b", "a"), 7.0)], [("p", "b")])]
+    for fluents, atoms in specs:
+        want = RefState(atoms, {(n,) + tuple(a): Fraction(v) for n, a, v in fluents})
+        st = guard(build, fluents, atoms)
+        obs = guard(observe_state, st) if not isinstance(st, Raised) else st
+        r.count("transitions")
+        if isinstance(obs, Raised) or not same_state(obs, want):
+            r.fail("serialize", f"route constructed: a state assembled from {fluents} / {atoms} through the public "
+                   f"constructors serializes as {show(obs)}", want.to_json(), show(obs), tags=["constructed"])
+            return
+        cp = guard(lambda: observe_state(st.copy()))
+        if isinstance(cp, Raised) or not same_state(cp, want):
+            r.fail("serialize", f"route constructed: the copy of a state assembled from {fluents} / {atoms} serializes as "
+                   f"{show(cp)}", want.to_json(), show(cp), tags=["constructed", "copy"])
+            return
 
 
 def negzero(r):
